@@ -41,6 +41,53 @@ def build(tier):
     return obs
 
 
+USER = ("def p(ch):\n    n = 0\n    while n < {count}:\n        x = ch.receive(None)\n        if n == 0:\n            G.first_{k} = x\n        else:\n            G.second_{k} = x\n        n = n + 1\n    G.done_{k} = 1\n")
+
+
+def sc_two_channels(order=("a0", "b0", "a1")):
+    """the receiver thread delivers items of two channels in the given wire order while one user thread per channel
+    receives: every receiver gets exactly its own channel's items, in order, under every schedule"""
+    import z3
+
+    from vlib import e2
+    from vlib.py2ts import INT0
+
+    sc = e2.ChannelScenario(f"two_channels[{','.join(order)}]", prequeued=0, nchannels=2)
+    names = {"a0": "I0", "a1": "I1", "b0": "I2"}
+    body = ""
+    for o in order:
+        cid = 1 if o[0] == "a" else 0
+        body += f"    with gw._receivelock:\n        f._local_receive({cid}, {names[o]})\n"
+    used = sorted({names[o] for o in order})
+    sc.add("receiver", f"def p({', '.join(['gw', 'f'] + used)}):\n" + body + "    G.recv_done = 1\n", ["gw", "f"] + used)
+    na = len([o for o in order if o[0] == "a"])
+    nb = len(order) - na
+    sc.add("user_a", USER.replace("{count}", str(na)).replace("{k}", "a"), ["ch"])
+    src_b = USER.replace("{count}", str(nb)).replace("{k}", "b").replace("def p(ch):", "def p(ch1):").replace("ch.receive", "ch1.receive")
+    sc.add("user_b", src_b, ["ch1"])
+    I = sc.items
+    sc.model.var("G.first_a", INT0); sc.model.var("G.second_a", INT0); sc.model.var("G.first_b", INT0); sc.model.var("G.second_b", INT0)
+    want = {"first_a": I["I0"], "second_a": I["I1"] if na > 1 else INT0, "first_b": I["I2"] if nb else INT0}
+    rev = {v: k for k, v in I.items()}
+
+    def model_bad(enc, K):
+        return z3.And(z3.Not(enc.can_move(K)), z3.Or([enc.var(K, f"G.{g}") != v for g, v in want.items()]))
+
+    def real_bad(g, d, b):
+        return any((g.get(k, 0) or 0) != (rev.get(v, 0) if v != INT0 else 0) for k, v in want.items())
+
+    sc.bad += [("custom", "wrong_item_or_wrong_channel", model_bad, real_bad), ("blocked", "user_a"), ("blocked", "user_b"), ("blocked", "receiver")]
+    sc.good_flags += ["recv_done", "done_a", "done_b"]
+    sc.observed += ["recv_done", "done_a", "done_b"]
+    return sc.finish()
+
+
+def e2_specs(tier):
+    orders = [("a0", "b0", "a1"), ("b0", "a0", "a1")] + ([("a0", "a1", "b0")] if tier == "thorough" else [])
+    return [{"module": "props.c02", "factory": "sc_two_channels", "args": {"order": o}, "K": 0, "name": f"two_channels[{','.join(o)}]",
+             "timeout": 3000 if tier == "thorough" else 600, "validate": 3, "depth_probes": 200} for o in orders]
+
+
 def signature(o, cex, detail):
     return f"C02:{'same' if o.meta['same_channel'] else 'two'}-channel:{'callback' if o.meta['callback'] else 'receive'}:{detail.split(':')[0]}"
 
@@ -48,7 +95,10 @@ def signature(o, cex, detail):
 def run(tier: str) -> Outcome:
     fns = describe_functions([gb.Channel.send, gb.BaseGateway._send, gb.Message.to_io, gb.Message.from_io, gb.BaseGateway._thread_receiver,
                                gb.Message.received, gb.ChannelFactory._local_receive, gb.ChannelFactory.new, gb.Channel.receive, gb.Channel.setcallback])
-    return e1.run_e1(
+    from vlib import e2run
+
+    e2out = e2run.outcome_from("C02", tier, e2run.run_scenarios(e2_specs(tier)), fns, [], "", [], "", "C02")
+    out = e1.run_e1(
         "C02", tier, build(tier), signature, fns,
         stubs=[
             "two real gateways over Popen2IO/PipeFile: what A writes is B's input; B's receiver thread body runs synchronously",
@@ -61,9 +111,21 @@ def run(tier: str) -> Outcome:
         outside=["preemption inside one send (frame atomicity under concurrent senders is C08's schedule part and not decided here)",
                  "concurrent receive() callers on one channel (queue.Queue's thread-safety is trusted)", "more senders / items than the bound"],
         explanation=("bounded symbolic execution of the real send path of one gateway and the real receive path of its peer: for every interleaving of two "
-                     "senders the peer's per-channel sequence equals the per-channel wire order - no loss, duplication or leak into another channel"),
+                     "senders the peer's per-channel sequence equals the per-channel wire order - no loss, duplication or leak into another channel; E2 (bounded model "
+                     "checking): the receiver thread delivering interleaved items of two channels races one receiving user thread per channel at the granularity of "
+                     "single shared accesses - each receiver gets exactly its own channel's items in order (setcallback racing the receiver thread: C10's E2 part; "
+                     "concurrent senders on the wire: C08's E2 part)"),
     )
+    e2run.merge_into(out, e2out, "e2_two_channels", "E2 part: queue.Queue = FIFO with blocking get, channel table = finite map, loads_internal = identity")
+    return out
 
 
 def replay(rep):
+    if rep.get("engine") == "E2":
+        from vlib import e2run
+
+        sc = sc_two_channels(**{k: tuple(v) if isinstance(v, list) else v for k, v in rep["scenario"]["args"].items()})
+        ghost, done, blocked, sched = sc.replay([tuple(x) for x in rep["order"]], mode=rep.get("mode", "sync"))
+        hits = e2run.real_bad(sc.bad, ghost, done, blocked)
+        return bool(hits) and not sched.diverged, f"hits={hits} ghost={ghost} blocked={blocked} diverged={sched.diverged}"
     return e1.replay_entry(rep)
